@@ -287,7 +287,6 @@ def ops_for(d, T, tier, small=False):
         ops.append(("simplify", []))
     if cls == "NumpyArray":
         ops.append(("contiguous", []))
-        ops.append(("toRegularArray", []))
     for name, args in ops:
         yield name, tuple(_freeze(a) for a in args), (lambda lay, name=name, args=args: apply(lay, name, args))
 
